@@ -868,7 +868,7 @@ func ruleFilterErrorTable(c *chk.Ctx) {
 	}
 	// ErrorCode: returns const K on the true edge of errors.Is(err, G)
 	fwd := map[string]int64{}
-	for _, r := range ir.Returns(ec) {
+	for _, r := range effectiveReturns(c, ec, 0) {
 		k, isC := ir.ConstInt(ir.ReturnResult(r, 0))
 		if !isC {
 			continue
@@ -898,6 +898,58 @@ func ruleFilterErrorTable(c *chk.Ctx) {
 			}
 		}
 	}
+	// or a constant lookup table: `if err, ok := table[e.Code]; ok { return err }` with table a
+	// package-level map initialised once from constants
+	ir.Instrs(fe, func(ins ssa.Instruction) {
+		lk, ok := ins.(*ssa.Lookup)
+		if !ok {
+			return
+		}
+		u, ok := lk.X.(*ssa.UnOp)
+		if !ok {
+			return
+		}
+		g, ok := u.X.(*ssa.Global)
+		if !ok {
+			return
+		}
+		// every write to the table anywhere in the repository (and in the package initialiser)
+		all := append([]*ssa.Function{}, c.P.Funcs...)
+		if ini := c.M.Pkg.Func("init"); ini != nil {
+			all = append(all, ini)
+		}
+		for _, f := range all {
+			ir.Instrs(f, func(i2 ssa.Instruction) {
+				mu, ok := i2.(*ssa.MapUpdate)
+				if !ok {
+					return
+				}
+				isTable := false
+				for _, src := range c.P.Sources(mu.Map) {
+					if mk, ok := src.(*ssa.MakeMap); ok {
+						for _, r := range *mk.Referrers() {
+							if st, ok := r.(*ssa.Store); ok && st.Addr == ssa.Value(g) {
+								isTable = true
+							}
+						}
+					}
+				}
+				if lu, ok := mu.Map.(*ssa.UnOp); ok && lu.X == ssa.Value(g) {
+					isTable = true
+				}
+				if !isTable {
+					return
+				}
+				k, isC := ir.ConstInt(mu.Key)
+				gv := globalLoad(mu.Value)
+				if f.Name() != "init" || !isC || gv == nil {
+					back["<table written outside its initialiser or with a computed entry at "+c.P.Pos(mu.Pos())+">"] = -1
+					return
+				}
+				back[gv.Pkg.Pkg.Path()+"."+gv.Name()] = k
+			})
+		}
+	})
 	for _, name := range []string{"context.Canceled", "context.DeadlineExceeded"} {
 		k1, ok1 := fwd[name]
 		k2, ok2 := back[name]
